@@ -44,6 +44,7 @@ type Case struct {
 	Reg       string   `json:"reg"`
 	Entry     string   `json:"entry"`
 	BadRef    bool     `json:"bad_ref"`
+	Recursive bool     `json:"recursive,omitempty"`
 	Root      string   `json:"root,omitempty"` // root path handed to NewSchemaValidator
 }
 
@@ -79,15 +80,24 @@ func genCase(t *rapid.T) Case {
 	}
 	doc := gen.Schema(t, o)
 	c := Case{}
-	if rapid.IntRange(0, 7).Draw(t, "badref") == 0 {
+	if gen.UniformIndex(t, 6, "recursive") == 0 {
+		// a recursive definition (every reference resolves; each cycle passes through a keyword that consumes
+		// a level of the instance, so validation is well-founded), reached from the root directly or through a member
+		doc = recursiveDoc(t)
+		c.Recursive = true
+		c.Schema = gen.Text(doc)
+		c.Instance = gen.Text(recursiveInstance(t, gen.UniformIndex(t, 5, "recdepth")))
+	} else if rapid.IntRange(0, 7).Draw(t, "badref") == 0 {
 		c.BadRef = true
 		injectBadRef(t, doc)
 	}
-	c.Schema = gen.Text(doc)
-	if rapid.IntRange(0, 2).Draw(t, "extremeinst") == 0 {
-		c.Instance = extreme(t)
-	} else {
-		c.Instance = gen.Text(gen.InstanceFor(t, doc, 15))
+	if !c.Recursive {
+		c.Schema = gen.Text(doc)
+		if rapid.IntRange(0, 2).Draw(t, "extremeinst") == 0 {
+			c.Instance = extreme(t)
+		} else {
+			c.Instance = gen.Text(gen.InstanceFor(t, doc, 15))
+		}
 	}
 	c.UseNumber = rapid.Bool().Draw(t, "usenumber")
 	for _, n := range optionNames {
@@ -102,6 +112,56 @@ func genCase(t *rapid.T) Case {
 		c.Root = rapid.SampledFrom([]string{"", "", "root", "examples", "example", "default", "properties", "a.default", "x.examples", "items", "a.properties"}).Draw(t, "rootpath")
 	}
 	return c
+}
+
+// recursiveDoc builds {"definitions":{"N": <recursive>, ...}, <root>} where <root> is a bare $ref to N, an allOf
+// holding it, or an object/array whose members are N.
+func recursiveDoc(t *rapid.T) map[string]any {
+	ref := func(n string) map[string]any { return map[string]any{"$ref": "#/definitions/" + n} }
+	var n map[string]any
+	switch gen.UniformIndex(t, 6, "recshape") {
+	case 0:
+		n = map[string]any{"type": "array", "items": ref("N")}
+	case 1:
+		n = map[string]any{"type": "object", "properties": map[string]any{"c": ref("N"), "v": map[string]any{"type": "integer"}}}
+	case 2:
+		n = map[string]any{"additionalProperties": ref("N")}
+	case 3:
+		n = map[string]any{"type": "array", "items": []any{ref("N"), map[string]any{"type": "string"}}, "additionalItems": ref("N")}
+	case 4:
+		n = map[string]any{"anyOf": []any{map[string]any{"type": []any{"null", "integer", "string"}}, map[string]any{"type": "object", "patternProperties": map[string]any{"^c": ref("N")}}, map[string]any{"type": "array", "items": ref("M")}}}
+	default:
+		n = map[string]any{"properties": map[string]any{"c": ref("M")}, "dependencies": map[string]any{"v": []any{"c"}}}
+	}
+	defs := map[string]any{"N": n, "M": map[string]any{"allOf": []any{ref("N")}, "minProperties": gen.Number(0)}}
+	var root map[string]any
+	switch gen.UniformIndex(t, 4, "recroot") {
+	case 0, 1:
+		root = ref("N")
+	case 2:
+		root = map[string]any{"allOf": []any{ref("N"), ref("M")}}
+	default:
+		root = map[string]any{"properties": map[string]any{"c": ref("N")}, "items": ref("M")}
+	}
+	root["definitions"] = defs
+	return root
+}
+
+// recursiveInstance nests arrays and objects with the member names recursiveDoc uses.
+func recursiveInstance(t *rapid.T, depth int) any {
+	if depth <= 0 {
+		return gen.Scalar(t)
+	}
+	switch gen.UniformIndex(t, 4, "recinst") {
+	case 0:
+		return []any{recursiveInstance(t, depth-1)}
+	case 1:
+		return []any{recursiveInstance(t, depth-1), "s", recursiveInstance(t, depth-2)}
+	case 2:
+		return map[string]any{"c": recursiveInstance(t, depth-1), "v": gen.Scalar(t)}
+	default:
+		return map[string]any{"c": recursiveInstance(t, depth-1), "cc": recursiveInstance(t, depth-2)}
+	}
 }
 
 // injectBadRef plants a $ref that resolves nowhere: at the root, in a property
@@ -246,11 +306,11 @@ func check(c Case) (out ev.Outcome) {
 	for k := range deg {
 		out.Classes = append(out.Classes, "degenerate:"+k)
 	}
-	out.Classes = append(out.Classes, "entry:"+c.Entry, "reg:"+c.Reg, fmt.Sprintf("json.Number:%v", c.UseNumber), fmt.Sprintf("badref:%v", c.BadRef))
+	out.Classes = append(out.Classes, "entry:"+c.Entry, "reg:"+c.Reg, fmt.Sprintf("json.Number:%v", c.UseNumber), fmt.Sprintf("badref:%v", c.BadRef), fmt.Sprintf("recursive:%v", c.Recursive))
 	for _, o := range c.Options {
 		out.Classes = append(out.Classes, "opt:"+o)
 	}
-	out.Nontrivial = len(deg) > 0 || len(c.Instance) > 200 || c.BadRef || c.UseNumber
+	out.Nontrivial = len(deg) > 0 || len(c.Instance) > 200 || c.BadRef || c.UseNumber || c.Recursive
 
 	rg := registryFor(c.Reg)
 	var nilResult bool
